@@ -35,7 +35,8 @@ func uninstall() {
 }
 
 type readResult struct {
-	reader int
+	startSeq, endSeq int // positions in the serialised order of read starts/completions
+	reader           int
 	n      int
 	err    error
 	tag    uint32 // writer<<16 | seq
@@ -86,6 +87,7 @@ func payload(w, seq, size int) []byte {
 
 type outcome struct {
 	mu        sync.Mutex
+	clock     int
 	reads     []readResult
 	writesOK  map[uint32]int // tag -> size
 	closed    bool
@@ -187,8 +189,16 @@ func runScenario(sc scenario, ch sched.Chooser, c *ev.Case, logf func(string, ..
 		s.Go(fmt.Sprintf("reader%d", r), func() {
 			buf := make([]byte, 2048)
 			for i := 0; i < reads; i++ {
+				out.mu.Lock()
+				out.clock++
+				start := out.clock
+				out.mu.Unlock()
 				n, err := b.Read(buf)
-				res := readResult{reader: r, n: n, err: err}
+				out.mu.Lock()
+				out.clock++
+				end := out.clock
+				out.mu.Unlock()
+				res := readResult{reader: r, n: n, err: err, startSeq: start, endSeq: end}
 				if err == nil && n >= 4 {
 					res.tag = binary.BigEndian.Uint32(buf)
 					w, seq := int(res.tag>>16), int(res.tag&0xffff)
@@ -325,6 +335,23 @@ func runScenario(sc scenario, ch sched.Chooser, c *ev.Case, logf func(string, ..
 				}
 			} else {
 				fail("C08: Read returned unexpected error %v\n%s", r.err, s.Describe())
+				return
+			}
+		}
+	}
+	// end-of-file is final: once a Read has reported EOF the buffer is closed and
+	// empty for good
+	for _, e := range reads {
+		if !errors.Is(e.err, io.EOF) {
+			continue
+		}
+		if count > 0 {
+			fail("C08: reader %d was told end-of-file although %d packet(s) are still buffered after Close\n%s", e.reader, count, s.Describe())
+			return
+		}
+		for _, d := range reads {
+			if d.err == nil && d.startSeq > e.endSeq {
+				fail("C08: reader %d read a packet with a Read that started after reader %d had been told end-of-file\n%s", d.reader, e.reader, s.Describe())
 				return
 			}
 		}
